@@ -298,7 +298,11 @@ struct C15 : Scenario {
         o.checks += 4;
         std::string ctx = " (grid " + std::to_string(n) + ", shifts " + plan.get("shiftx") + "," + plan.get("shifty") + ", e1 " + fmt_g(e1, 3) + ", " + std::to_string(nsteps) + " steps, " + std::to_string(M) + " particles)";
         if (std::fabs(mq) > tolm || std::fabs(mp) > tolm) o.fail("C15.ensemble_mean", "ensemble mean (q,p) = (" + fmt_g(mq, 5) + "," + fmt_g(mp, 5) + ") instead of 0 +- " + fmt_g(tolm, 3) + ctx);
-        if (std::fabs(vq - 1) > 0.03 + e1 || std::fabs(vp - 1) > 0.03 + e1) o.fail("C15.ensemble_width", "ensemble widths (q,p) = (" + fmt_g(vq, 5) + "," + fmt_g(vp, 5) + ") instead of 1 +- 3%" + ctx);
+        // the equilibrium of a kick-drift map with noise added at one point of the step is wider in energy by O(theta^2) (observed:
+        // 0.12 theta^2 on grids of ~50 points, 0.043 at theta = 0.32 on a 32-point grid with a shifted energy axis: thorough tier)
+        const double th = plan.getd("angle"), cellw = 12.0 / (n - 1);
+        const double tolw = 0.03 + e1 + 0.15 * th * th + 0.1 * cellw * cellw;
+        if (std::fabs(vq - 1) > tolw || std::fabs(vp - 1) > tolw) o.fail("C15.ensemble_width", "ensemble widths (q,p) = (" + fmt_g(vq, 5) + "," + fmt_g(vp, 5) + ") instead of 1 +- " + fmt_g(tolw, 3) + ctx);
         o.fault("entropy_reads", simrt::state().entropy_reads);
         P = Pipe();
         api_end();
